@@ -32,7 +32,8 @@ def unwrap(x):
 def _cmp(op, a, b):
     a, b = unwrap(a), unwrap(b)
     if isinstance(a, FloatSpecial) or isinstance(b, FloatSpecial):
-        return V(False) if TOL[0] is not None else V(ops.scalar_compare(op, a, b))
+        # undefined (e.g. x/0 in a clause evaluated on concrete values): never confirms anything
+        return V(BORDER) if TOL[0] is not None else V(ops.scalar_compare(op, a, b))
     if TOL[0] is not None and isinstance(a, (int, Fraction)) and isinstance(b, (int, Fraction)) and not (
         isinstance(a, bool) or isinstance(b, bool)
     ) and (isinstance(a, Fraction) or isinstance(b, Fraction)):
@@ -48,7 +49,12 @@ def _arith(op, a, b):
     a, b = unwrap(a), unwrap(b)
     if isinstance(a, Arr) or isinstance(b, Arr):
         raise EngineError("series arithmetic in a spec: index first (s[i])")
-    return V(ops.scalar_binop(op, a, b))
+    try:
+        return V(ops.scalar_binop(op, a, b))
+    except ops.PyRaise as e:
+        if e.cls_name == "ZeroDivisionError":
+            return V(NAN)
+        raise
 
 
 class V:
@@ -209,7 +215,10 @@ def If(c, a, b):
 
 
 def Abs(x):
-    return V(ops.scalar_abs(unwrap(x)))
+    x = unwrap(x)
+    if isinstance(x, FloatSpecial):
+        return V(x)
+    return V(ops.scalar_abs(x))
 
 
 def Min(*xs):
